@@ -6,6 +6,7 @@
 import PsVerif.Lemmas.LeastSquares
 import PsVerif.Lemmas.GramAlg
 import PsVerif.Model.Recon
+import Mathlib.LinearAlgebra.Matrix.NonsingularInverse
 namespace PsVerif
 open Matrix
 
@@ -13,14 +14,39 @@ variable {p m n : ℕ}
 
 /-- the certifying square solver only returns exact solutions of `M · X = Y` -/
 theorem solveExact_sound (M Y X : RMat) (h : solveExact M Y = some X) : (M.mul X).beq Y = true := by
-  sorry
+  unfold solveExact at h
+  simp only [bind, Option.bind] at h
+  split at h
+  · exact absurd h (by simp)
+  · split at h
+    · exact absurd h (by simp)
+    · rename_i R f _
+      simp only at h
+      split at h
+      · rename_i hb
+        simp only [Option.some.injEq] at h
+        subst h
+        exact hb
+      · exact absurd h (by simp)
 
 /-- the certifying least-squares solver returns either an exact solution of the normal equations
 or a minimum-norm representation `X = Mᵀ Z` with `M Mᵀ Z = Y` -/
 theorem lstsqExact_sound (M Y X : RMat) (h : lstsqExact M Y = some X) :
     ((M.transpose.mul M).mul X).beq (M.transpose.mul Y) = true ∨
       ∃ Z, X = M.transpose.mul Z ∧ ((M.mul M.transpose).mul Z).beq Y = true := by
-  sorry
+  unfold lstsqExact at h
+  simp only at h
+  split at h
+  · rename_i X' hX
+    simp only [Option.some.injEq] at h
+    subst h
+    exact Or.inl (solveExact_sound _ _ _ hX)
+  · split at h
+    · rename_i Z hZ
+      simp only [Option.some.injEq] at h
+      subst h
+      exact Or.inr ⟨Z, rfl, solveExact_sound _ _ _ hZ⟩
+    · exact absurd h (by simp)
 
 /-- **C02 (rectangular case, at least as many sensors as modes).** If the selected sensor rows
 have full column rank, the least-squares reconstruction of an in-span signal `B a` from its values
@@ -28,19 +54,20 @@ at the sensors is `B a` itself – at every location, for every coefficient vect
 theorem recon_exact (B : Matrix (Fin n) (Fin m) ℚ) (σ : Fin p → Fin n)
     (hinj : Function.Injective (B.submatrix σ id).mulVec) (a c : Fin m → ℚ)
     (h : NormalEq (B.submatrix σ id) ((B.submatrix σ id) *ᵥ a) c) : B *ᵥ c = B *ᵥ a := by
-  sorry
+  rw [ls_recovers _ hinj a c h]
 
 /-- **C02 (square case, `n_sensors = n_modes`: `solve`).** -/
 theorem recon_exact_square (B : Matrix (Fin n) (Fin m) ℚ) (σ : Fin p → Fin n)
     (hinj : Function.Injective (B.submatrix σ id).mulVec) (a c : Fin m → ℚ)
     (h : (B.submatrix σ id) *ᵥ c = (B.submatrix σ id) *ᵥ a) : B *ᵥ c = B *ᵥ a := by
-  sorry
+  rw [hinj h]
 
 /-- the values of the signal at the sensors are the sensor rows applied to the coefficients
 (what is fed to `predict` is `x[sensors]` for `x = B a`) -/
 theorem measurements_eq (B : Matrix (Fin n) (Fin m) ℚ) (σ : Fin p → Fin n) (a : Fin m → ℚ) :
     (fun i => (B *ᵥ a) (σ i)) = (B.submatrix σ id) *ᵥ a := by
-  sorry
+  ext i
+  rfl
 
 /-- using more sensors keeps full column rank: if the rows `σ` already determine the
 coefficients, so do the rows `τ` whenever every `σ`-sensor is among the `τ`-sensors -/
@@ -48,7 +75,11 @@ theorem more_sensors_injective {q : ℕ} (B : Matrix (Fin n) (Fin m) ℚ) (σ : 
     (τ : Fin q → Fin n) (ι : Fin p → Fin q) (hι : ∀ i, τ (ι i) = σ i)
     (hinj : Function.Injective (B.submatrix σ id).mulVec) :
     Function.Injective (B.submatrix τ id).mulVec := by
-  sorry
+  intro c c' h
+  apply hinj
+  ext i
+  have := congrFun h (ι i)
+  simpa [Matrix.mulVec, dotProduct, hι] using this
 
 /-- **C02 (default QR optimizer needs no further assumption).** `m` sensor rows that are linearly
 independent (the first `m` greedy picks of a full-column-rank basis matrix are, by
@@ -56,6 +87,7 @@ independent (the first `m` greedy picks of a full-column-rank basis matrix are, 
 theorem independent_rows_injective (B : Matrix (Fin n) (Fin m) ℚ) (σ : Fin m → Fin n)
     (hli : LinearIndependent ℚ (fun i : Fin m => B (σ i))) :
     Function.Injective (B.submatrix σ id).mulVec := by
-  sorry
+  rw [Matrix.mulVec_injective_iff_isUnit, ← Matrix.linearIndependent_rows_iff_isUnit]
+  exact hli
 
 end PsVerif
